@@ -19,11 +19,9 @@ import (
 	"net"
 	"net/http"
 	"net/http/httptest"
-	"net/http/httputil"
 	"net/url"
 	"os"
 	"runtime"
-	"runtime/debug"
 	"sort"
 	"strconv"
 	"strings"
@@ -511,6 +509,7 @@ type cvxWorld struct {
 	oldLog   io.Writer
 	nroutes  int
 	errs     int64
+	retries  int64
 }
 
 func cvxNewWorld() *cvxWorld {
@@ -539,13 +538,7 @@ func cvxNewWorld() *cvxWorld {
 		Timeout:       120 * time.Second, // safety net only: expiry is an error record, never a verdict
 	}
 	// like transport.NewTransport(nil) in main, with a larger idle pool
-	w.upTr = &http.Transport{Dial: func(network, addr string) (net.Conn, error) {
-		c, err := (&net.Dialer{}).Dial(network, addr)
-		if err != nil {
-			return nil, err
-		}
-		return &cvxDbgConn{Conn: c}, nil
-	}, MaxIdleConnsPerHost: 64, MaxIdleConns: 1024}
+	w.upTr = &http.Transport{Dial: (&net.Dialer{}).Dial, MaxIdleConnsPerHost: 64, MaxIdleConns: 1024}
 	w.oldTable = route.GetTable()
 	w.oldHTML = noroute.GetHTML()
 	return w
@@ -607,7 +600,7 @@ func (w *cvxWorld) serveUpstream(rw http.ResponseWriter, r *http.Request) {
 	}
 
 	var plan *cvxPlan
-	if p, ok := w.plans.Load(id); ok {
+	if p, ok := w.plans.Load(cvxCaseOf(id)); ok {
 		plan = p.(*cvxPlan)
 	} else {
 		st, hd := cvxAnswer("ok")
@@ -695,21 +688,7 @@ func (w *cvxWorld) front(k cvxCfgKey) *cvxFront {
 			return route.GetTable().Lookup(r, r.Header.Get("trace"), pick, match, gc, false)
 		},
 	}
-	var hh http.Handler = p
-	if os.Getenv("VERIF_VANILLA") != "" {
-		u, _ := url.Parse("http://" + w.upAddr)
-		rp := httputil.NewSingleHostReverseProxy(u)
-		rp.Transport = w.upTr
-		hh = rp
-	}
-	if os.Getenv("VERIF_LOG") != "" {
-		inner := hh
-		hh = http.HandlerFunc(func(rw http.ResponseWriter, r *http.Request) {
-			r.Body = &cvxDbgBody{rc: r.Body, id: r.Header.Get(cvxIDHeader)}
-			inner.ServeHTTP(rw, r)
-		})
-	}
-	srv := httptest.NewUnstartedServer(hh)
+	srv := httptest.NewUnstartedServer(p)
 	if os.Getenv("VERIF_LOG") == "" {
 		srv.Config.ErrorLog = log.New(io.Discard, "", 0)
 	}
@@ -772,7 +751,34 @@ func cvxRawTarget(cs *cvxCase) (rawPath, rawQuery string) {
 	return cvxJoin(cs.C.Path), cvxQuery(cs.C.Query)
 }
 
-func (w *cvxWorld) doHTTP(cs *cvxCase, id int64) (*cvxGot, error) {
+// errCvxTruncated: the answer ended before its announced end (Content-Length / last chunk).
+var errCvxTruncated = errors.New("response truncated")
+
+// doHTTP carries out the case's request.  An exchange that breaks off (connection-level error)
+// is repeated: under load net/http itself occasionally cuts an exchange short - the server side
+// closes the request body when the first response bytes are written while the Transport still
+// probes it for data beyond Content-Length ("invalid Read on closed Body", golang.org/issue/15527
+// and relatives; a bare httputil.ReverseProxy shows the same) - and such noise must not decide a
+// case.  An answer that is cut short on every attempt is reported by the caller.
+//
+// Every attempt carries its own request id (case id + attempt<<40) so that what the upstream
+// recorded for an abandoned attempt cannot be mistaken for the attempt that is judged.
+func (w *cvxWorld) doHTTP(cs *cvxCase, id int64) (got *cvxGot, rid int64, err error) {
+	for attempt := int64(0); attempt < 4; attempt++ {
+		rid = id + attempt<<cvxAttemptShift
+		if got, err = w.doHTTPOnce(cs, rid); err == nil || strings.HasPrefix(err.Error(), "harness:") {
+			return got, rid, err
+		}
+		atomic.AddInt64(&w.retries, 1)
+	}
+	return got, rid, err
+}
+
+const cvxAttemptShift = 40
+
+func cvxCaseOf(rid int64) int64 { return rid & (1<<cvxAttemptShift - 1) }
+
+func (w *cvxWorld) doHTTPOnce(cs *cvxCase, id int64) (*cvxGot, error) {
 	f := w.front(cvxFrontKey(cs))
 	rawPath, rawQuery := cvxRawTarget(cs)
 	dec, err := url.PathUnescape(rawPath)
@@ -852,8 +858,23 @@ func (h *cvxHead) Write(p []byte) (int, error) {
 	return len(p), nil
 }
 
-// doWS performs a websocket opening handshake by hand and reads until the proxy ends the connection.
-func (w *cvxWorld) doWS(cs *cvxCase, id int64) (*cvxGot, error) {
+// doWS performs a websocket opening handshake through the proxy.  fabio gives the upstream one second
+// to answer the handshake and says 500 otherwise; on a loaded machine that is a matter of scheduling,
+// so an exchange that broke off or ended in fabio's own 500 is repeated (see doHTTP); only an outcome
+// that persists is judged.
+func (w *cvxWorld) doWS(cs *cvxCase, id int64) (got *cvxGot, rid int64, err error) {
+	for attempt := int64(0); attempt < 4; attempt++ {
+		rid = id + attempt<<cvxAttemptShift
+		if got, err = w.doWSOnce(cs, rid); err == nil && got.Status != http.StatusInternalServerError {
+			return got, rid, nil
+		}
+		atomic.AddInt64(&w.retries, 1)
+	}
+	return got, rid, err
+}
+
+// doWSOnce performs a websocket opening handshake by hand and reads until the proxy ends the connection.
+func (w *cvxWorld) doWSOnce(cs *cvxCase, id int64) (*cvxGot, error) {
 	f := w.front(cvxFrontKey(cs))
 	var conn net.Conn
 	var err error
@@ -1196,47 +1217,20 @@ func (rn *cvxRunner) run(t *testing.T) {
 	// every response has long been received: an upstream contacted for a case that had to be
 	// answered locally would have been recorded by now
 	late := 0
+	quietSet := map[int64]bool{}
 	for _, id := range quiet {
-		if s := w.take(id); s != nil {
+		quietSet[id] = true
+	}
+	w.mu.Lock()
+	for rid, s := range w.seen {
+		if id := cvxCaseOf(rid); quietSet[id] {
 			late++
 			verifx.Fail(map[string]any{"id": id}, map[string]any{"clause": "upstream-contacted"},
 				"case %d had to be answered without any upstream, but the upstream received %s %s", id, s.Method, s.RequestURI)
 		}
 	}
+	w.mu.Unlock()
 	verifx.Summary(map[string]any{"cases": total, "ran": ran, "distinct": distinct, "distinct_nontrivial": nontrivial,
-		"routes": w.nroutes, "errors": atomic.LoadInt64(&w.errs), "samples": samples, "late_hits": late})
-}
-
-var errCvxTimeout = errors.New("timeout")
-
-type cvxDbgConn struct{ net.Conn }
-
-func (c *cvxDbgConn) Close() error {
-	log.Printf("CLOSE %s\n%s", c.Conn.LocalAddr(), debug.Stack())
-	return c.Conn.Close()
-}
-
-func (c *cvxDbgConn) Write(b []byte) (int, error) {
-	n, err := c.Conn.Write(b)
-	if err != nil {
-		log.Printf("WRITEERR %s: %v", c.Conn.LocalAddr(), err)
-	}
-	return n, err
-}
-
-type cvxDbgBody struct {
-	rc io.ReadCloser
-	id string
-}
-
-func (b *cvxDbgBody) Read(p []byte) (int, error) {
-	n, err := b.rc.Read(p)
-	if err != nil && err != io.EOF {
-		log.Printf("BODYREADERR case %s: %v\n%s", b.id, err, debug.Stack())
-	}
-	return n, err
-}
-
-func (b *cvxDbgBody) Close() error {
-	return b.rc.Close()
+		"routes": w.nroutes, "errors": atomic.LoadInt64(&w.errs), "retried_exchanges": atomic.LoadInt64(&w.retries),
+		"samples": samples, "late_hits": late})
 }
